@@ -1,4 +1,4 @@
+pub mod master;
+pub mod net;
 pub mod outstation;
 pub mod peer;
-pub mod net;
-pub mod master;
